@@ -180,6 +180,17 @@ Corollary gen_api_body_store s r st :
   snd (gen_api_new s r st) = body_store s ANew st (r_fresh r).
 Proof. destruct (gen_api_is_model s r st) as [-> ->]. split; reflexivity. Qed.
 
+(* within one request: get_csrf_token after new_csrf_token returns the token just installed and mints nothing
+   (the policies make the new token visible to the rest of the request) *)
+Theorem gen_api_get_after_new s r st :
+  r_fresh r <> [] ->
+  gen_api_get s r (snd (gen_api_new s r st)) = (r_fresh r, Some (r_fresh r)).
+Proof.
+  intros Hf. destruct (gen_api_is_model s r st) as [_ ->]. cbn [snd].
+  destruct (gen_api_is_model s r (Some (r_fresh r))) as [-> _].
+  unfold store_after_get, token_absent. destruct (r_fresh r); [contradiction|]. destruct s; reflexivity.
+Qed.
+
 (* ------------------------------------------------------------ csrf.check_csrf_token *)
 Theorem gen_check_csrf_token_is_model pr s token header raises r :
   p_utf8 pr = true ->
